@@ -75,13 +75,15 @@ def with_restarts(rng, h, every):
 def check(run, prop):
     run.rule = ("histories over the op alphabet {Add(channel,priority,id?,timeout?), StartPull(conn,channels), RunLoop, "
                 "Finish(conn,id,result,error in {None,'','boom','timeout','killed'}), Kill, Tick(dt), Disconnect, Choice(k), Wait, "
-                "Info, SetInfo, Stats, Advance(dt) = the clock moves and timed waits expire but the handletimeouts sweep has not run%s}: "
+                "Info, SetInfo, Stats, Advance(dt) = the clock moves and timed waits expire but the handletimeouts sweep has not run, "
+                "Drop(ids) = rpc_qdrop%s}: "
                 "corpus, then random histories of length 3..12 over 2-3 channels, 3-4 worker connections, "
-                "auto and client ids; thorough adds a breadth-first exploration of the model's state graph over the property's "
+                "auto and client ids; 8%% of them from the drop family (1-3 clients wait on one job that is dropped; the id is killed "
+                "and re-added, finished, timed out or swept by the watchdog while they wait; noise ops in between); thorough adds a breadth-first exploration of the model's state graph over the property's "
                 "bounded alphabet (2 channels, <=4 jobs, 3 workers, symmetry-reduced: workers/ids/channels in first-use order; "
                 "Choice only when >=2 pullers are blocked), one history per (distinct model state, op) pair. distinct = distinct "
                 "history text; non-trivial = the run contains a delivery and a RunLoop, a died connection or a restart"
-                % (", Drop(ids) = rpc_qdrop, Watchdog = dropdead, R = pickle round trip of the db" if prop == "C18" else ""))
+                % (", Watchdog = dropdead, R = pickle round trip of the db" if prop == "C18" else ""))
     run.trusted = ["Coq 8.16.1 kernel (coqc); vm_compute in the Examples only",
                    "extraction (ExtrOcamlBasic directives only) + ocaml/c16/driver.ml (printing, parsing, enum alphabet)",
                    "hand-written model coq/C16/Model.v of jobs.py/qserve.py/rpcserver connection life cycle; tie = differential run after every op",
@@ -92,13 +94,11 @@ def check(run, prop):
     run.assumptions = ["client supplied job ids are strings (an integer id given by a client can collide with a server-chosen serial: outside the alphabet)",
                        "priorities are non-negative integers; one request at a time per connection",
                        "the socket/JSON layer of rpcserver.py is represented by: disconnect = kill(block=False) of the handler greenlet, then shutdown() in its finally",
-                       "rpc_qdrop/dropdead (Drop, Watchdog) are modelled and tied, but generated only for C18 (outside C16/C17's alphabets); the Coq theorems about "
-                       "ids (C16_conservation's id2job conjunct, C17 delivery/finality) are stated for histories without Drop: with Drop + kill + re-add of the same id, "
-                       "waitjobs' `del id2job[j.jobid]` forgets the NEW job (real code and model agree; monitor 'addressable' skips exactly that case; "
-                       "proposed fix /verif/fixes/C16-drop-deletes-readded.diff)",
+                       "rpc_qdrop (Drop) is outside the properties' alphabets but modelled, tied and generated for all three (since b6f8314 waitjobs forgets a dropped "
+                       "job's id only while it still names the waited-for object; the Coq theorems quantify over the full alphabet incl. Drop/Watchdog); "
+                       "dropdead (Watchdog) is generated for C18 and inside the drop family",
                        "Wait is not generated on a connection whose disconnect is pending (gevent corner: a client that starts waiting on an already-set event while "
-                       "its notifier is pending is released one loop turn later if an earlier waiter died first; history D 1;A 1 1 - 0;W 1 a1;K 5 a1;W 5 a1;L; model says same turn)",
-                       "when several clients wait on the same DROPPED job, which of them gets the job and which the KeyError is not compared (event link order)"]
+                       "its notifier is pending is released one loop turn later if an earlier waiter died first; history D 1;A 1 1 - 0;W 1 a1;K 5 a1;W 5 a1;L; model says same turn)"]
     src = core.snapshot(need_ext=False)
     run.check_proofs(prop, dirs=PROOF_DIRS[prop])
     exe = build()
